@@ -264,7 +264,23 @@ func (c *Ctx) sites(f *ssa.Function, env Env, chk *GCheck, depth int) []gsite {
 				if chk.MatchCmp == nil {
 					continue
 				}
-				if m, onTrue := chk.MatchCmp(c, x, env); m {
+				m, onTrue := chk.MatchCmp(c, x, env)
+				if !m && (x.Op == token.EQL || x.Op == token.NEQ) && isBoolType(x.X.Type()) {
+					// a comparison compared with a boolean that is known in this frame (`isSet != required` with
+					// required = false): it is the inner comparison, with the polarity adjusted
+					for _, side := range [][2]ssa.Value{{x.X, x.Y}, {x.Y, x.X}} {
+						inner, isB := side[0].(*ssa.BinOp)
+						kp := c.Path(side[1], env)
+						if !isB || (kp != "true" && kp != "false") {
+							continue
+						}
+						if mi, onTrueInner := chk.MatchCmp(c, inner, env); mi {
+							innerWhenTrue := (kp == "true") == (x.Op == token.EQL)
+							m, onTrue = true, onTrueInner == innerWhenTrue
+						}
+					}
+				}
+				if m {
 					s := gsite{cut: boolEdgesT(x, onTrue), instr: x}
 					// a function that hands the comparison back as its verdict
 					if onTrue {
